@@ -310,3 +310,22 @@ Theorem C01_cached_tuning_refuted :
   exists cs, ~ sends_tuned (rexec_cached cs (dongle0, None)).
 Proof. exact cached_tuning_refuted. Qed.
 Print Assumptions C01_cached_tuning_refuted.
+
+(* ===================== round 6: the answer of a transfer is a value ===================== *)
+
+(* Several instances share the dongle thread; it queues the result of a transfer and goes on with the next command
+   (another instance's); the link's thread looks at its result later.  With a FRESH result per transfer
+   (Crazyradio.send_packet makes a new _radio_ack each time): for every interleaving of completed transfers and reads,
+   what instance i has read so far, followed by what still waits in its queue, is exactly the list of answers to
+   ITS OWN transfers, in order. *)
+Theorem C01_answers_are_own : forall evs i,
+  reads_of i (snd (xrun_value evs)) ++ fst (xrun_value evs) i = dones_of i evs.
+Proof. exact answers_are_own. Qed.
+Print Assumptions C01_answers_are_own.
+
+(* One status cell per dongle, refilled for every transfer, with the queues carrying references to it: an instance
+   can read another instance's answer (transfer for 0, transfer for 1, then 0 looks). *)
+Theorem C01_shared_result_cell_refuted :
+  exists evs i, ~ (exists rest, dones_of i evs = reads_of i (xrun_cell evs) ++ rest).
+Proof. exact shared_cell_refuted. Qed.
+Print Assumptions C01_shared_result_cell_refuted.
